@@ -23,7 +23,7 @@ def main():
         ck.broken.append("Spec/C02Oracle.v / Model/ProtocolCheck.v do not build")
         ck.finish(BASE_TRUST + PROTO_TRUST)
     tmpd = tempfile.mkdtemp(prefix="lsf_c03_")
-    sizes = [("seq", 1500 if thorough else 200), ("fanout_ok", 800 if thorough else 100), ("fanout_fail", 800 if thorough else 100)]
+    sizes = [("seq", 1500 if thorough else 200), ("fanout_ok", 800 if thorough else 100), ("fanout_fail", 800 if thorough else 100), ("fanout_fail_nested", 800 if thorough else 100)]
     infos = ec.run_profiles(rng, tmpd, sizes, thorough)
     shutil.rmtree(tmpd, ignore_errors=True)
 
@@ -31,7 +31,7 @@ def main():
 
     def desc(info):
         d = eg.describe(info)
-        d["nested_fanout_with_failure"] = cp.fanout_depth(info.definition) >= 2 and info.profile == "fanout_fail"
+        d["nested_fanout_with_failure"] = cp.fanout_depth(info.definition) >= 2 and info.profile in ("fanout_fail", "fanout_fail_nested")
         return d
 
     pcases, pdesc = [], []
